@@ -302,7 +302,10 @@ class Signomial(object):
         return self.__mul__(other)
 
     def __truediv__(self, other):
-        other_inv = other ** -1
+        if isinstance(other, __NUMERIC_TYPES__):
+            other_inv = 1 / other
+        else:
+            other_inv = other ** -1
         return self.__mul__(other_inv)
 
     def __rtruediv__(self, other):
